@@ -119,6 +119,9 @@ def run(facts, chk, tier, only=None):
     chk.floor('C16', 'configurations', nconf, 88)
     # sliding = from scratch also needs every window next to an N / the record end to be produced: guard tightness
     from . import c01
+    # the iterator as a whole, functionally (every sequence of the small families, both strand modes): twin of the guard-shape rule below
+    from . import skiter
+    chk.guard('C16.func', 'C16.func:iterator:run', lambda: skiter.check_contigs(facts, chk, 'C16.func', tier))
     chk.guard('C16.window', 'C16.window:run', lambda: c01.check_guards(facts, chk, 'C16.window'))
 
 
